@@ -611,11 +611,15 @@ func (rn *runner) report(engine, form, kind string, imm []byte, t tuple, want re
 	for p := 0; p < ar; p++ {
 		args = append(args, fmtVal(rn.op.Params[p], t[p]))
 	}
-	det := sprintf("%s %s%s (%s) form %s on %s: got %s, specification: %s %s", rn.op.Name, immStr(imm), "", strings.Join(args, ", "), form, engine, got, want.String(), extra)
+	wantS := want.String()
+	if want.Trap == refsem.NoTrap && want.Deterministic() {
+		wantS = fmtVal(want.Shape, want.V)
+	}
+	det := sprintf("%s %s(%s) form %s on %s: got %s, specification: %s %s", rn.op.Name, immStr(imm), strings.Join(args, ", "), form, engine, got, wantS, extra)
 	rn.seen[sig] = len(rn.res.Findings)
 	rn.res.Findings = append(rn.res.Findings, finding{Sig: sig, Detail: det, Count: 1, Witness: map[string]any{
 		"op": rn.op.Name, "encoding": rn.op.EncodingString(), "immediate": hex.EncodeToString(imm), "operands": args, "form": form, "engine": engine,
-		"expected": want.String(), "got": got,
+		"expected": wantS, "got": got,
 		"wat": watOf(rn.op, imm, t, form),
 	}})
 }
